@@ -86,7 +86,9 @@ CLAIMS = {
         "barrier exits are enabled once all entered. REFUTED for the composition in the code: F12 (witness state reachable in the model; only the absent thread can move) — recorded known finding, "
         "reproduced by the runs. Decision on the real runtime: every generated run (predicate / termination time / RootsimStop from a handler; 1..16 threads; GVT periods down to 0) must return "
         "within the watchdog with one LP_FINI per LP, including 2- and 3-rank runs with preemptions injected at the shutdown barrier and in the main loop (found and fixed F16); a non-returning run is "
-        "classified by the hook stage markers of the workers of all ranks and reported unless it matches a known finding.",
+        "classified by the hook stage markers of the workers of all ranks and reported unless it matches a known finding (the F12 signature is exact: no worker past the drain barrier). "
+        "Also: busy 2-rank programs stopped in mid-run under long simulated network delays (messages and anti-messages in flight at shutdown), and never-ending models (independent LPs that keep one "
+        "event alive after their predicate holds, more requested threads than LPs) which can only end through the termination detection.",
    note=TB + "liveness of the whole shutdown path is not proved; OS starvation and MPI progress cannot be exhibited by the model.",
    tech="Coq proof of deadlock-freedom/bounded passes on protocol models + refutation witness + watchdog-classified runs"),
  "C09": dict(cat="proof", ref="DESIGN.md §5 C09",
@@ -116,7 +118,7 @@ CLAIMS = {
         "(zero, one, many rounds), 1..16 threads, with injected preemptions at the hook after gvt_phase_run (corpus scenario of finding F9): the .bin must decode with the extracted "
         "decoder with nothing left over and re-encode identically, be accepted by the shipped parser, have equal record counts for node and threads, non-decreasing GVTs, cumulative "
         "undone <= forward, and every per-thread record must equal the hook-trace counts (forward, rollbacks, undone, checkpoints, silent, anti-messages) of its interval; "
-        "shutdown while everything pending sits at virtual time 0 (rounds of value exactly 0.0 completed partly in the main loop, partly in the shutdown code; costly self-rescheduling events): record counts must still agree.",
+        "shutdown while everything pending sits at virtual time 0 (rounds of value exactly 0.0 completed partly in the main loop, partly in the shutdown code; costly self-rescheduling events): record counts must still agree; 2-rank files under simulated network delays: every node's per-thread records against the hook trace of that rank.",
    note=TB + "timing and memory metrics are checked for presence only; counter accounting is checked against traces, not proved.",
    tech="Coq proof (codec round-trip) + decoding of real output with the extracted decoder + per-interval counter comparison with hook traces"),
  "C12": dict(cat="proof", ref="DESIGN.md §5 C12",
@@ -136,7 +138,8 @@ CLAIMS = {
         "every granule of every block allocated at the checkpoint, whatever happened to the arena since; a restore to index ref uses the newest checkpoint not after ref, returns its reference, "
         "drops every later checkpoint. Tie: allocator driver with checkpoints at arbitrary indices and restores at/between/just after checkpoints incl. arenas created after the checkpoint; "
         "LP level: multi-thread runs (intervals 1..7/auto) and the LP-level driver (the harness plays the network: holds messages, returns them late — thousands of rollbacks to indices between "
-        "checkpoints, silent re-executions) must end with the reference hash-chain digests (state, live buffers, RNG stream).",
+        "checkpoints, silent re-executions) must end with the reference hash-chain digests (state, live buffers, RNG stream); programs drawing through the library distributions (libm, no Gallina twin): scripted LP-level run with "
+        "rollbacks against the in-order run of the same program; in half of the multi-thread runs some LPs never call SetState() (their state lives in rollbackable memory all the same).",
    note=TB + "the worker model abstracts an LP's memory to the interpreter state (a checkpoint = a copy): that real checkpoints are exact copies is the arena theorem + allocator correspondence; "
         "the worker model is tied to process.c/fossil.c by digests after every script line (fixed checkpoint intervals); remote markers (2 ranks) are covered by runs only.",
    tech="Coq proof (invariant of an executable model of process.c over all scripts; checkpoint/restore exactness on the arena model) + op-by-op correspondence of process.c/fossil.c with the extracted worker model + differential allocator correspondence + rollback storms against the reference executor"),
